@@ -5,7 +5,7 @@ SPEC = dict(
     model="Model.C29_Wire Model.C29",
     rule="requests sent through a live single-node Store with every API that writes a command (Execute, Query at level strong, Request, Load, Noop) plus load chunks "
          "through command.MarshalLoadChunkRequest; hand-picked: 511/512/513 statements and 4095/4096/4097 bytes of compressible and incompressible SQL at the default "
-         "thresholds, every parameter kind, forced compression, zero thresholds, batches of 2-8 distinct really-compressed requests (and load requests) that are ALL marshalled before any result is wrapped and decoded (8 / 200 batches), 8 goroutines x 40 (thorough 6 runs x 8 x 150) concurrent compressed Execute/Query/Request calls whose log entries must be exactly the requests sent, requests whose gzip output is exactly one byte shorter than / as long as / one byte longer than their encoding; generated: 0-10 statements with SQL lengths just below/at/above the size threshold, "
+         "thresholds, every parameter kind, forced compression, zero thresholds, a size sweep (oracle only; generated from parameters) of compressed and uncompressed requests - many-statement batches, one huge SQL literal, one huge blob - whose encoding lies just below / above each power of two from 64 KiB to 16 MiB (12 quick / 108 thorough), batches of 2-8 distinct really-compressed requests (and load requests) that are ALL marshalled before any result is wrapped and decoded (8 / 200 batches), 8 goroutines x 40 (thorough 6 runs x 8 x 150) concurrent compressed Execute/Query/Request calls whose log entries must be exactly the requests sent, requests whose gzip output is exactly one byte shorter than / as long as / one byte longer than their encoding; generated: 0-10 statements with SQL lengths just below/at/above the size threshold, "
          "statement counts just below/at/above the batch threshold (thresholds 3-8 statements / 24-200 bytes so that both are crossed often), parameters of all five "
          "kinds plus unset (int64 extremes, NaN/-0/inf doubles, empty and non-UTF-8 blobs, multi-byte names), all flags, int64 extremes in timeouts.  A case is "
          "non-trivial when a statement count or an SQL length is within 2 of its threshold or the request carries every parameter kind; distinct by type, thresholds and request bytes",
